@@ -260,11 +260,52 @@ def cx_census(cx, prog=None):
     if id(prog) in _CENSUS:
         return _CENSUS[id(prog)]
     out = []
-    for d, b in prog.bodies.items():
-        if b['kind'] not in ('Fn', 'AssocFn') or 'body' not in b or prog.is_derived(b):
-            continue
-        w = cx.walk(d, prog=prog, key='census')
+    for d, w in census_walks(cx, prog):
         for e in w.events:
             out.append((d, e))
     _CENSUS[id(prog)] = out
     return out
+
+
+_WALKS = {}
+
+
+def census_walks(cx, prog=None):
+    """[(def path, walker)] for every non-derived fn, plus every closure / async block that no walk inlined
+       (futures handed to tokio::spawn, callbacks of unmodelled callees): those are roots of their own"""
+    prog = prog or cx.prog
+    if id(prog) in _WALKS:
+        return _WALKS[id(prog)]
+    res = []
+    applied = set()
+    for d, b in prog.bodies.items():
+        if b['kind'] not in ('Fn', 'AssocFn') or 'body' not in b or prog.is_derived(b):
+            continue
+        w = cx.walk(d, prog=prog, key='census')
+        applied |= w.applied
+        res.append((d, w))
+    changed = True
+    done = set()
+    while changed:
+        changed = False
+        for d, b in prog.bodies.items():
+            if b['kind'] != 'Closure' or 'body' not in b or d in applied or d in done:
+                continue
+            top = d.split('::{closure')[0]
+            tb = prog.bodies.get(top)
+            if tb is None or prog.is_derived(tb):
+                continue
+            # the coroutine body of an async fn is walked through its shell
+            if d == top + '::{closure#0}' and ir.is_async_shell(tb):
+                continue
+            parent = d.rsplit('::{closure', 1)[0]
+            if parent != top and parent not in applied and parent not in done and not (
+                    parent == top + '::{closure#0}' and ir.is_async_shell(tb)):
+                continue    # wait until the enclosing closure was visited
+            w = cx.walk(d, prog=prog, key='census')
+            applied |= w.applied
+            done.add(d)
+            res.append((d, w))
+            changed = True
+    _WALKS[id(prog)] = res
+    return res
